@@ -1,23 +1,18 @@
 package asserts_test
 
 import (
-	"os"
 	"runtime/debug"
-	"runtime/pprof"
 	"testing"
-	"time"
 
 	"github.com/snapcore/snapd/internal/verifsim"
 )
 
+// One engine per property, all hosted in package asserts_test (external test
+// package: it uses the package's own export_test.go helpers and test-only
+// assertion types).
 func TestVerifSim(t *testing.T) {
 	// short-lived garbage only (encodings, parsed headers): collect less often
 	debug.SetGCPercent(400)
-	if p := os.Getenv("VERIF_DEV_PPROF"); p != "" {
-		f, _ := os.Create(p)
-		pprof.StartCPUProfile(f)
-		go func() { time.Sleep(8 * time.Second); pprof.StopCPUProfile(); f.Close() }()
-	}
 	verifsim.Main(t, map[string]*verifsim.Engine{
 		"C18": verifEngineC18,
 		"C19": verifEngineC19,
